@@ -73,6 +73,9 @@ func (s *Aggregate) VerifySyncInfo(syncInfo hotstuff.SyncInfo) (qc *hotstuff.Quo
 	}
 
 	if aggQC, haveQC := syncInfo.AggQC(); haveQC {
+		if aggQC.Sig() == nil {
+			return nil, 0, timeout, fmt.Errorf("aggregate quorum certificate has nil signature")
+		}
 		highQC, err := s.auth.VerifyAggregateQC(aggQC)
 		if err != nil {
 			return nil, 0, timeout, fmt.Errorf("failed to verify aggregate quorum certificate: %w", err)
